@@ -61,4 +61,11 @@ PROPS = {
                     "real clock readings are not controlled: single-goroutine id sequences are validated by the model acceptor, concurrent draws by duplicate search"],
         "assumes": ["a restored generator replaces the original (both are not drawn from concurrently)"],
     },
+    "C15": {
+        "cmd": "c15",
+        "corr": ["Corr.C15corr"],
+        "trusted": ["encoding/xml itself (tokenizer, struct-tag driven field layout of the 150 generated element types) is not modelled: the model covers the hand-written layer of schema/schema.go over generic element trees; the generated per-element code is exercised by the round-trip oracle on documents covering every supported element",
+                    "Go's rule 'an undeclared prefix resolves to itself' is modelled as read in encoding/xml"],
+        "assumes": ["documents use only namespaces PreMarshal knows"],
+    },
 }
